@@ -378,4 +378,28 @@ def directed_cases():
             for order in (ovs, list(reversed(ovs))):
                 out.append(("overloads-arity:%s:%s" % (fam, caller.name), Module(funcs=list(order) + [caller]),
                             [(caller.name, [({n: vals[t] for t, n in caller.params}, {})])]))
+    # a parameter given by its type only still takes its position: the named parameters around it bind by position, in the
+    # callee's reads and in its writes
+    a, c = V("a", INT), V("c", INT)
+    b_ = V("b", INT)
+    un = [
+        ("second", Func("second", [(INT, None), (INT, "b")], INT, Block([ExprStmt(Assign("=", b_, B("+", B("*", b_, I(2)), I(1)))), Return(b_)]), False),
+         lambda fn: Call("second", [a, c], INT, fn)),
+        ("first", Func("first", [(INT, "b"), (INT, None)], INT, Block([ExprStmt(Assign("+=", b_, I(5))), Return(b_)]), False),
+         lambda fn: Call("first", [a, c], INT, fn)),
+        ("third", Func("third", [(FLOAT, None), (INT, "b"), (INT, "k")], INT,
+                       Block([ExprStmt(Assign("+=", V("k", INT), b_)), ExprStmt(Assign("=", b_, I(0))), Return(B("+", B("*", V("k", INT), I(10)), b_))]), False),
+         lambda fn: Call("third", [F(9.5), a, c], INT, fn)),
+        ("middle", Func("middle", [(INT, "b"), (FLOAT, None), (INT, "k")], INT,
+                        Block([ExprStmt(Affix("++", True, V("k", INT))), Return(B("-", B("*", b_, I(100)), V("k", INT)))]), False),
+         lambda fn: Call("middle", [a, F(0.5), c], INT, fn)),
+        ("scale", Func("scale", [(F2, None), (FLOAT, "s")], FLOAT,
+                       Block([ExprStmt(Assign("=", V("s", FLOAT), B("*", V("s", FLOAT), F(0.5)))), Return(V("s", FLOAT))]), False),
+         lambda fn: Call("scale", [Construct(F2, [F(100.0), F(200.0)]), B("*", c, F(1.5))], FLOAT, fn)),
+    ]
+    for nm, fn_, mk in un:
+        call = mk(fn_)
+        main = Func("f", [(INT, "a"), (INT, "c")], FLOAT if call.ty == FLOAT else INT,
+                    Block([Decl(call.ty, "r", call), Return(B("+", B("+", B("*", V("r", call.ty), I(10000)), B("*", a, I(100))), c))]), True)
+        out.append(("unnamed-parameter:%s" % nm, Module(funcs=[fn_, main]), [("f", [({"a": 3, "c": 7}, {}), ({"a": -2, "c": 40}, {})])]))
     return out
